@@ -18,6 +18,7 @@ import (
 	"reflect"
 	"sort"
 	"strings"
+	"sync/atomic"
 	"time"
 
 	"github.com/Basekick-Labs/msgpack/v6"
@@ -138,7 +139,15 @@ func scribble(b []byte) {
 // boundary after an empty file is a writer restart (NewWriter always opens a fresh file).
 // While a writer session appends, the writer mutex is held through the overlay shim (when
 // present) and every payload buffer is overwritten right after its Append call returned.
-func buildLayout(dir string, layout [][]string) ([]int, error) {
+type breaker interface {
+	VerifBreakFile()
+}
+
+// buildLayout: breakRotation selects how a boundary after a NON-EMPTY file is produced: false = size-triggered
+// rotation (last frame padded past MaxSizeBytes); true = write-failure rotation (the current file handle is
+// closed under the writer mutex, so the next entry's write fails, the writer rotates and must re-write THAT
+// entry first in the new file while later entries are already queued behind it).
+func buildLayout(dir string, layout [][]string, breakRotation bool) ([]int, error) {
 	var pads []int
 	newWriter := func() (*wal.Writer, error) {
 		return wal.NewWriter(&wal.WriterConfig{WALDir: dir, SyncMode: wal.SyncModeAsync, MaxSizeBytes: rotateAt,
@@ -174,6 +183,23 @@ func buildLayout(dir string, layout [][]string) ([]int, error) {
 			time.Sleep(200 * time.Microsecond)
 		}
 	}
+	if _, ok := interface{}(w).(breaker); !ok {
+		breakRotation = false
+	}
+	if _, ok := interface{}(w).(locker); !ok {
+		breakRotation = false
+	}
+	waitWritten := func(n int64) error {
+		deadline := time.Now().Add(60 * time.Second)
+		for atomic.LoadInt64(&w.TotalEntries) < n {
+			if time.Now().After(deadline) {
+				return fmt.Errorf("writer did not persist %d entries", n)
+			}
+			time.Sleep(100 * time.Microsecond)
+		}
+		return nil
+	}
+	var sessionEntries int64
 	lock()
 	id := 0
 	for fi, file := range layout {
@@ -182,7 +208,7 @@ func buildLayout(dir string, layout [][]string) ([]int, error) {
 			id++
 			pad := 0
 			last := j == len(file)-1
-			if last && fi < len(layout)-1 {
+			if last && fi < len(layout)-1 && !(breakRotation && len(layout[fi+1]) > 0) {
 				// pad so that this write crosses the rotation threshold
 				base := frameSize(kind, id, 0)
 				if size+base < rotateAt {
@@ -207,6 +233,17 @@ func buildLayout(dir string, layout [][]string) ([]int, error) {
 			}
 			scribble(raw)
 			size += frameSize(kind, id, pad)
+			sessionEntries++
+		}
+		if fi < len(layout)-1 && len(file) > 0 && breakRotation && len(layout[fi+1]) > 0 {
+			// let the writer persist everything appended so far, then break the file handle so that the
+			// next entry's write fails while the entries of the following files queue up behind it
+			unlock()
+			if err := waitWritten(sessionEntries); err != nil {
+				return nil, err
+			}
+			lock()
+			interface{}(w).(breaker).VerifBreakFile()
 		}
 		if fi < len(layout)-1 && len(file) == 0 {
 			// empty file: restart the writer
@@ -218,6 +255,7 @@ func buildLayout(dir string, layout [][]string) ([]int, error) {
 			if w, err = newWriter(); err != nil {
 				return nil, err
 			}
+			sessionEntries = 0
 			lock()
 		}
 	}
@@ -515,15 +553,50 @@ func main() {
 	for si, sc := range scs {
 		res.FaultKeysTL += len(sc.Allowed)
 		dir := filepath.Join(tmp, fmt.Sprintf("l%d", si))
-		pads, err := buildLayout(dir, sc.Layout)
+		pads, err := buildLayout(dir, sc.Layout, si%2 == 1)
 		if err != nil {
 			res.Infra = fmt.Sprintf("build layout %v: %v", sc.Layout, err)
 			break
 		}
 		files, err := loadFiles(dir, sc.Layout, pads)
 		if err != nil {
-			res.Infra = fmt.Sprintf("load layout %v: %v", sc.Layout, err)
-			break
+			// The writer did not produce the files the layout describes (frames in another order, other
+			// sizes, another number of files). That is not an infrastructure problem: read the directory
+			// as it is with the real reader and judge it against what was appended, in append order.
+			names, _ := filepath.Glob(filepath.Join(dir, "*.wal"))
+			sort.Strings(names)
+			got, _ := readDir(names)
+			var want []decoded
+			id := 0
+			for _, f := range sc.Layout {
+				for _, kind := range f {
+					id++
+					want = append(want, expectedFor(kind, id, pads[id-1]))
+				}
+			}
+			ids, altered := identify(want, got)
+			w := witness{Layout: sc.Layout, File: 0, Offset: -1, Mutation: "none", FaultKey: "none|0|0|none", Via: "ReadAll", Out: ids, Note: err.Error()}
+			inOrder := altered == 0 && len(ids) == len(want)
+			for i, x := range ids {
+				if x != i+1 {
+					inOrder = false
+				}
+			}
+			if inOrder {
+				res.Infra = fmt.Sprintf("load layout %v: %v", sc.Layout, err)
+				break
+			}
+			switch {
+			case altered > 0:
+				addV("intact-file-yields-entry-that-was-not-appended", w)
+			case len(ids) != len(want):
+				addV("intact-file-entries-missing", w)
+			default:
+				addV("intact-file-entries-out-of-order", w)
+			}
+			res.Layouts++
+			os.RemoveAll(dir)
+			continue
 		}
 		res.Layouts++
 		var paths []string
